@@ -256,7 +256,22 @@ deriving Inhabited
 inductive Content where
   | mk (params : Params) (body : List Stmt) (env : List Nat) (outer : Option Content)
 
+/-- As-found switches: deviations of grass from the Sass rules that are reported as findings.
+    The specification is `Dev.spec` (all false); the correspondence runs against `Dev.asFound`. -/
+structure Dev where
+  /-- N3: `p: ()` is silently dropped instead of failing with "() isn't a valid CSS value."
+      (ast/css.rs:59 `is_invisible` treats the empty list as blank). -/
+  emptyListDeclDropped : Bool := false
+  /-- N2: the argument list bound to a rest parameter is always comma-separated, even when the
+      caller spread a space-separated list (`f($list...)`; visitor.rs:2308 / serializer.rs:938). -/
+  restAlwaysComma : Bool := false
+deriving Repr, DecidableEq, Inhabited
+
+def Dev.spec : Dev := {}
+def Dev.asFound : Dev := { emptyListDeclDropped := true, restAlwaysComma := true }
+
 structure Ctx where
+  dev : Dev
   env : List Nat            -- scope chain, innermost first
   semi : Bool               -- in a semi-global scope (control flow at the top level)
   content : Option Content
@@ -467,6 +482,7 @@ def evalNamed (f : Expr → M Value) : List (String × Expr) → M (List (String
 structure Evaled where
   pos : List Value
   named : List (String × Value)
+  sep : Sep := .undecided      -- separator of a spread list (`$l...`), for the rest parameter
 deriving Inhabited
 
 /-- Evaluate an argument list in the caller's scope: positional, then named, then the rest
@@ -479,7 +495,7 @@ def evalArgs (r : Rec) (ctx : Ctx) (a : Args) : M Evaled := do
   | none => pure { pos, named }
   | some e =>
     match ← r.expr ctx e with
-    | .list es _ _ => pure { pos := pos ++ es, named }
+    | .list es sep _ => pure { pos := pos ++ es, named, sep }
     | .map _ => fail .unsupported
     | v => pure { pos := pos ++ [v], named }
 
@@ -504,7 +520,7 @@ def bindPositional (fid : Nat) : List (String × Option Expr) → List Value →
 /-- Invoke a user-defined callable: fresh frame on top of the captured chain, arity check, bind,
     run `body` in the callee context; leftover named arguments with a rest parameter are an error
     after the body has run (nothing in the core language can read an argument list's keywords). -/
-def invoke {α : Type} (r : Rec) (mk : Nat → Ctx) (ps : Params) (ev : Evaled) (body : Ctx → M α) : M α := do
+def invoke {α : Type} (r : Rec) (dev : Dev) (mk : Nat → Ctx) (ps : Params) (ev : Evaled) (body : Ctx → M α) : M α := do
   let fid ← newFrame
   let ctx := mk fid
   match verifyArgs ps ev.pos.length (ev.named.map (·.1)) with
@@ -513,7 +529,9 @@ def invoke {α : Type} (r : Rec) (mk : Nat → Ctx) (ps : Params) (ev : Evaled) 
     bindPositional fid ps.ps ev.pos
     let left ← bindRest r ctx fid (ps.ps.drop ev.pos.length) ev.named
     match ps.rest with
-    | some rn => setVarIn fid rn (.list (ev.pos.drop ps.ps.length) .comma false)
+    | some rn =>
+      let sep := if dev.restAlwaysComma || ev.sep == .undecided then Sep.comma else ev.sep
+      setVarIn fid rn (.list (ev.pos.drop ps.ps.length) sep false)
     | none => pure ()
     let out ← body ctx
     if ps.rest.isSome && !left.isEmpty then fail .noArgumentNamed else pure out
@@ -621,7 +639,7 @@ def exprF (r : Rec) (ctx : Ctx) : Expr → M Value
     let st ← getSt
     match lookupFn st.heap ctx.env f with
     | some c =>
-      invoke r (fun fid => { env := fid :: c.env, semi := false, content := none, sel := ctx.sel, inFn := true })
+      invoke r ctx.dev (fun fid => { dev := ctx.dev, env := fid :: c.env, semi := false, content := none, sel := ctx.sel, inFn := true })
         c.params ev fun ctx' => do
           match ← r.block ctx' c.body with
           | some v => pure v
@@ -667,8 +685,9 @@ def stmtF (r : Rec) (ctx : Ctx) : Stmt → M (Option Value)
   | .decl prop e => do
     if ctx.sel.isEmpty then fail .declOutsideRule else
     let v ← r.expr ctx e
-    let emptyList := match v with | .list [] _ _ => true | .map [] => true | _ => false
+    let emptyList := match v with | .list [] _ false => true | .map [] => true | _ => false
     if v.isBlank && !emptyList then pure none else
+    if emptyList && ctx.dev.emptyListDeclDropped then pure none else
     let txt : Option String ← (match v.toCss with
       | .ok s => pure (some s)
       | .error .invalidCss => pure none
@@ -737,7 +756,7 @@ def stmtF (r : Rec) (ctx : Ctx) : Stmt → M (Option Value)
     | some c =>
       let ev ← evalArgs r ctx args
       let cb := content.map fun (ps, body) => Content.mk ps body ctx.env ctx.content
-      invoke r (fun fid => { env := fid :: c.env, semi := false, content := cb, sel := ctx.sel, inFn := false })
+      invoke r ctx.dev (fun fid => { dev := ctx.dev, env := fid :: c.env, semi := false, content := cb, sel := ctx.sel, inFn := false })
         c.params ev fun ctx' => do
           let _ ← r.block ctx' c.body
           pure none
@@ -746,7 +765,7 @@ def stmtF (r : Rec) (ctx : Ctx) : Stmt → M (Option Value)
     | none => pure none
     | some (.mk ps body env outer) =>
       let ev ← evalArgs r ctx args
-      invoke r (fun fid => { env := fid :: env, semi := false, content := outer, sel := ctx.sel, inFn := false })
+      invoke r ctx.dev (fun fid => { dev := ctx.dev, env := fid :: env, semi := false, content := outer, sel := ctx.sel, inFn := false })
         ps ev fun ctx' => do
           let _ ← r.block ctx' body
           pure none
@@ -762,7 +781,8 @@ def stmtF (r : Rec) (ctx : Ctx) : Stmt → M (Option Value)
     pure none
   | .error e => do
     let v ← r.expr ctx e
-    let _ ← liftPrint v.inspect
+    let s ← liftPrint v.inspect
+    logMsg "error" s
     fail .userError
 
 def loopF (r : Rec) (ctx : Ctx) (c : Expr) (body : List Stmt) : M (Option Value) := do
@@ -789,7 +809,7 @@ def run : Nat → Rec
 
 def St.init : St := { heap := #[{}], css := #[], log := #[] }
 
-def Ctx.root : Ctx := { env := [0], semi := true, content := none, sel := [], inFn := false }
+def Ctx.root (dev : Dev) : Ctx := { dev, env := [0], semi := true, content := none, sel := [], inFn := false }
 
 /-- Whole-program result. -/
 inductive Outcome where
@@ -797,8 +817,8 @@ inductive Outcome where
   | failed (e : Err) (st : St)
   | outOfFuel
 
-def evalProgram (fuel : Nat) (prog : List Stmt) : Outcome :=
-  match (run fuel).block Ctx.root prog St.init with
+def evalProgram (dev : Dev) (fuel : Nat) (prog : List Stmt) : Outcome :=
+  match (run fuel).block (Ctx.root dev) prog St.init with
   | .ok _ st =>
     -- declaration values are turned into CSS text when the stylesheet is serialised, after
     -- evaluation has finished
@@ -1041,19 +1061,27 @@ def stStr (st : St) : String :=
   let log := st.log.toList.map fun (k, m) => k ++ ":" ++ hexEncode m
   (if css.isEmpty then "-" else ",".intercalate css) ++ " | " ++ (if log.isEmpty then "-" else ",".intercalate log)
 
+def outcomeStr : Outcome → String
+  | .finished st => "ok done | " ++ stStr st
+  | .failed .unsupported _ => "unsupported"
+  | .failed e st => "ok err " ++ errStr e ++ " | " ++ stStr st
+  | .outOfFuel => "ok out-of-fuel"
+
+/-- `e` = emptyListDeclDropped, `r` = restAlwaysComma; `-` = the specification. -/
+def parseDev (s : String) : Dev :=
+  { emptyListDeclDropped := s.contains 'e', restAlwaysComma := s.contains 'r' }
+
 def handle : List String → String
-  | "run" :: fuel :: ts =>
+  | "run" :: fuel :: dev :: ts =>
     match fuel.toNat? with
     | none => "bad-op"
     | some fuel =>
       match pCounted (pStmt ts.length) ts with
       | some (prog, []) =>
+        -- a declaration directly at the top level is not even parsed as a declaration
+        if prog.any (fun s => match s with | .decl .. => true | _ => false) then "ok err static-error | - | -" else
         if !blockStatic false false false prog then "ok err static-error | - | -" else
-        match evalProgram fuel prog with
-        | .finished st => "ok done | " ++ stStr st
-        | .failed .unsupported _ => "unsupported"
-        | .failed e st => "ok err " ++ errStr e ++ " | " ++ stStr st
-        | .outOfFuel => "ok out-of-fuel"
+        outcomeStr (evalProgram (parseDev dev) fuel prog)
       | _ => "bad-op"
   | ["forrange", a, b, i] =>
     match a.toInt?, b.toInt?, parseBool? i with
